@@ -25,6 +25,7 @@ func runC19(c *Ctx) {
 	c19BoundedReads(c, ge)
 	c19Errors(c, ge)
 	c19Tamper(c, ge)
+	c19Frame(c, ge)
 	c19Registries(c)
 	c19Handshake(c, ge)
 }
@@ -717,6 +718,9 @@ func c19Errors(c *Ctx, ge *GuardEngine) {
 	}
 	for i := range tab {
 		tab[i].Weak = true
+		// neither branch of this test rejects outright (one returns nil, the other the wrapper's error), so the
+		// spelling "err != nil { return err }" and "err == nil { return nil }" are the same test
+		tab[i].Ops = []string{"!=", "=="}
 	}
 	runGuardTable(c, "error-delivered", ge, tab)
 	for _, e := range []struct{ fn, pat string }{{"rhp/v2.(*Transport).ReadResponse", "….err"}, {"rhp/v3.(*Stream).readObject", "….err"}} {
@@ -731,9 +735,31 @@ func c19Errors(c *Ctx, ge *GuardEngine) {
 				}
 			}
 			c.Check(ok, "error-delivered", e.fn+":returns-wrapper-error", c.P.Pos(fn.Pos()), ifElse(ok, "the decoded wrapper's err field is among the returned values", e.fn+" never returns the decoded response error: "+joinShort(as)))
+			// and no path on which the wrapper's error is known to be set returns nil
+			swallowed := ""
+			fi := ge.info(fn)
+			for _, b := range fn.Blocks {
+				if len(b.Instrs) == 0 {
+					continue
+				}
+				ret, isRet := b.Instrs[len(b.Instrs)-1].(*ssa.Return)
+				if !isRet || len(ret.Results) == 0 {
+					continue
+				}
+				k, isConst := ret.Results[len(ret.Results)-1].(*ssa.Const)
+				if !isConst || !k.IsNil() {
+					continue
+				}
+				for _, cd := range ge.domConds(fi, b, nil) {
+					if strings.HasSuffix(cd.L, ".err") && cd.Op == "!=" && cd.R == "nil" {
+						swallowed = c.P.Pos(ret.Pos())
+					}
+				}
+			}
+			c.Check(swallowed == "", "error-delivered", e.fn+":error-not-swallowed", c.P.Pos(fn.Pos()), ifElse(swallowed == "", "no return of nil where the wrapper's error is known to be set", "returns nil at "+swallowed+" although the response carried an error"))
 		}
 	}
-	c.Min("error-delivered", 7)
+	c.Min("error-delivered", 9)
 }
 
 // ---------- tampering ----------
